@@ -21,8 +21,11 @@ RULE = ("E1: every document <= 3 nodes without sets (keys a/b replaced by "
         "negative/zero/wide integer and number-like text keys on another) plus a "
         "family with scalar anchors and aliases (alias under a key, inside "
         "a sequence, outside the anchor's subtree, first anchor below the "
-        "root) x expressions = 9 operators x inverted x %d terms (strided) "
+        "root; anchored keys used again as aliased keys of scalars, hashes "
+        "and lists, value anchors first defined beneath an aliased key) x "
+        "expressions = 9 operators x inverted x %d terms (strided) "
         "x {values, keys+values, keys only} x value-alias inclusion x "
+        "key-alias inclusion x "
         "anchor-name search x expansion x both notations, through "
         "search_for_paths(). Oracle: an own reference search (document "
         "order, first occurrence of an anchored object = anchor, later ones "
@@ -34,8 +37,9 @@ RULE = ("E1: every document <= 3 nodes without sets (keys a/b replaced by "
         "descendants of the unexpanded matches under the same alias rule. "
         "Non-trivial = >= 1 match at depth >= 2 or an alias influences the "
         "answer; distinct by (document, expression, options)." % len(TERMS))
-ASSUMPTIONS = ["sets, anchored containers, anchored keys and YAML merge keys "
-               "are not generated (their treatment is not documented)",
+ASSUMPTIONS = ["sets, anchored containers and YAML merge keys are not "
+               "generated (their treatment is not documented); anchored keys "
+               "are scalars and never aliased by their own value",
                "cells the C12 table leaves Unspecified are skipped"]
 EXHAUSTIVE = {"quick": False, "thorough": False}
 SHARD_BUDGET_S = {"quick": 100, "thorough": 2400}
@@ -62,6 +66,28 @@ def family():
                    ["s", ["M", [["h", S(v, "x")]], None]], ["r", A],
                    ["u", ["A", "y"]]], None],
         ]
+    KD = lambda name, anc: ["KD", name, anc]
+    KA = lambda anc: ["KA", anc]
+    for kn, v in (("a", 1), ("ab", "a"), ("k1", "b")):
+        out += [
+            # an anchored key, used again as an aliased key of scalars/hashes
+            ["M", [["p", ["M", [[KD(kn, "kx"), S(v)]], None]],
+                   ["q", ["M", [[KA("kx"), S(2)]], None]],
+                   ["r", ["M", [[KA("kx"), ["M", [["sub", S(kn)],
+                                                   ["a", S(v)]], None]]],
+                          None]]], None],
+            # a value anchor first defined beneath an aliased key
+            ["M", [["anchors", ["M", [[KD(kn, "kx"), S(v, "vx")]], None]],
+                   ["parent", ["M", [[KA("kx"), S("a", "x")],
+                                     ["other", ["A", "x"]],
+                                     ["plain", S("a")]], None]],
+                   ["again", ["A", "vx"]]], None],
+            # aliased key holding a list with an alias of an outside anchor
+            ["M", [[KD(kn, "kx"), S(v, "x")],
+                   ["n", ["M", [[KA("kx"), ["L", [["A", "x"], S("a")],
+                                                  None]],
+                                ["b", ["A", "x"]]], None]]], None],
+        ]
     out += [["M", [["users", ["L", [["M", [["name", S("a")],
                                            ["tags", ["L", [S("a"), S("b")],
                                                      None]]], None],
@@ -74,7 +100,7 @@ def family():
 
 
 def has_unsupported(doc):
-    """Sets / anchored containers / anchored keys / merge keys."""
+    """Sets / anchored containers / merge keys."""
     bad = [False]
 
     def walk(node):
@@ -84,9 +110,10 @@ def has_unsupported(doc):
             if getattr(node, "merge", None):
                 bad[0] = True
             for k, v in node.items():
-                if anchor_of(k) is not None or \
-                        (is_container(v) and anchor_of(v) is not None):
+                if is_container(v) and anchor_of(v) is not None:
                     bad[0] = True
+                if anchor_of(k) is not None and anchor_of(k) == anchor_of(v):
+                    bad[0] = True       # a key aliased by its own value
                 walk(v)
         elif is_seq(node):
             for v in node:
@@ -98,13 +125,16 @@ def has_unsupported(doc):
 
 
 class Opts:
-    def __init__(self, values, keys, val_aliases, anchors, expand, sep):
+    def __init__(self, values, keys, val_aliases, anchors, expand, sep,
+                 key_aliases=False):
         self.values, self.keys, self.val_aliases = values, keys, val_aliases
         self.anchors, self.expand, self.sep = anchors, expand, sep
+        self.key_aliases = key_aliases
 
     def as_dict(self):
         return {"search_values": self.values, "search_keys": self.keys,
                 "include_value_aliases": self.val_aliases,
+                "include_key_aliases": self.key_aliases,
                 "search_anchors": self.anchors, "expand": self.expand,
                 "sep": self.sep}
 
@@ -115,47 +145,57 @@ def _ok(method, term, inverted, hay):
 
 def model_search(doc, method, term, inverted, o):
     """Expected matches as [(position tuple, parent, ref, kind)] in document
-    order; raises Unspecified."""
+    order; raises Unspecified.
+
+    An anchored node (value or key) counts as the anchor at its first
+    occurrence in document order and as an alias at every later one.  An
+    aliased key that the options do not ask for is discarded together with
+    its value and child nodes; an aliased value likewise."""
     seen = []
     out = []
 
-    def leaves(node, parent, ref, pos, top):
-        """yield_children semantics: leaf descendants, alias rule applied."""
+    def note(node):
+        """(anchor name, is-an-aliased-repeat); puts the name on record."""
         name = anchor_of(node)
-        if not top and name is not None:
-            first = name not in seen
-            if first:
-                seen.append(name)
-            if not first and not o.val_aliases:
-                return
+        if name is None:
+            return None, False
+        if name in seen:
+            return name, True
+        seen.append(name)
+        return name, False
+
+    def leaves(node, parent, ref, pos):
+        """yield_children semantics: leaf descendants, alias rules applied."""
         if is_map(node):
             for k, v in node.items():
-                leaves(v, node, k, pos + (refkey(node, k),), False)
+                _, kalias = note(k)
+                _, valias = note(v)
+                if (kalias and not o.key_aliases) or \
+                        (valias and not o.val_aliases):
+                    continue
+                leaves(v, node, k, pos + (refkey(node, k),))
         elif is_seq(node):
             for i, v in enumerate(node):
-                leaves(v, node, i, pos + (("i", i),), False)
+                _, valias = note(v)
+                if valias and not o.val_aliases:
+                    continue
+                leaves(v, node, i, pos + (("i", i),))
         else:
             out.append((pos, parent, ref, "expanded"))
 
     def report(node, parent, ref, pos, kind):
         if o.expand:
-            leaves(node, parent, ref, pos, True)
+            leaves(node, parent, ref, pos)
         else:
             out.append((pos, parent, ref, kind))
 
-    def value(node, parent, ref, pos):
-        name = anchor_of(node)
-        alias = False
-        if name is not None:
-            alias = name in seen
-            if not alias:
-                seen.append(name)
-            if o.anchors:
-                if alias and not o.val_aliases:
-                    return
-                if _ok(method, term, inverted, name):
-                    report(node, parent, ref, pos, "anchor-name")
-                    return
+    def value(node, parent, ref, pos, name, alias):
+        if name is not None and o.anchors:
+            if alias and not o.val_aliases:
+                return
+            if _ok(method, term, inverted, name):
+                report(node, parent, ref, pos, "anchor-name")
+                return
         if is_map(node) or is_seq(node):
             walk(node, pos)
         elif o.values:
@@ -168,18 +208,23 @@ def model_search(doc, method, term, inverted, o):
         if is_map(node):
             for k, v in node.items():
                 p = pos + (refkey(node, k),)
+                kname, kalias = note(k)
+                vname, valias = note(v)
+                if kalias and not o.key_aliases:
+                    continue            # with its value and child nodes
                 if o.keys:
-                    # the value's anchor is put on record first
-                    name = anchor_of(v)
+                    if kname is not None and o.anchors and \
+                            _ok(method, term, inverted, kname):
+                        report(v, node, k, p, "key-anchor-name")
+                        continue
                     if _ok(method, term, inverted, k):
-                        if name is not None and name not in seen:
-                            seen.append(name)
                         report(v, node, k, p, "key")
                         continue
-                value(v, node, k, p)
+                value(v, node, k, p, vname, valias)
         elif is_seq(node):
             for i, v in enumerate(node):
-                value(v, node, i, pos + (("i", i),))
+                vname, valias = note(v)
+                value(v, node, i, pos + (("i", i),), vname, valias)
     walk(doc, ())
     return out
 
@@ -205,7 +250,7 @@ def check_search(doc, text, method, term, inverted, o, res):
         got = list(search_for_paths(
             gdocs.logger(), proc, doc, terms, sep, "", None,
             search_values=o.values, search_keys=o.keys,
-            search_anchors=o.anchors, include_key_aliases=False,
+            search_anchors=o.anchors, include_key_aliases=o.key_aliases,
             include_value_aliases=o.val_aliases, decrypt_eyaml=False,
             expand_children=o.expand, all_anchors={}))
     except Exception as exc:
@@ -213,9 +258,10 @@ def check_search(doc, text, method, term, inverted, o, res):
         res.fail({"clause": "no-crash", "exc": etype, "frame": frame}, case,
                  "%s: %s" % (etype, exc))
         return
-    mode = "%s%s%s%s" % ("V" if o.values else "", "K" if o.keys else "",
-                         "+aliases" if o.val_aliases else "",
-                         "+refnames" if o.anchors else "")
+    mode = "%s%s%s%s%s" % ("V" if o.values else "", "K" if o.keys else "",
+                           "+aliases" if o.val_aliases else "",
+                           "+keyaliases" if o.key_aliases else "",
+                           "+refnames" if o.anchors else "")
     texts = [str(p) for p in got]
     # every printed path resolves, in the notation it was printed in
     got_pos = []
@@ -290,7 +336,9 @@ def option_sets():
             for anc in (False, True):
                 for exp in (False, True):
                     for sep in (".", "/"):
-                        out.append(Opts(values, keys, al, anc, exp, sep))
+                        for kal in (False, True):
+                            out.append(Opts(values, keys, al, anc, exp, sep,
+                                            kal))
     return out
 
 
@@ -321,7 +369,7 @@ def docs_for():
 def plan(tier, seed):
     nsh = 48
     return [{"kind": "grid", "part": i, "parts": nsh, "offset": seed,
-             "stride": 7 if tier == "quick" else 1} for i in range(nsh)]
+             "stride": 13 if tier == "quick" else 1} for i in range(nsh)]
 
 
 def run_shard(shard):
@@ -359,7 +407,7 @@ def replay(case):
     d = case["opts"]
     o = Opts(d["search_values"], d["search_keys"],
              d["include_value_aliases"], d["search_anchors"], d["expand"],
-             d["sep"])
+             d["sep"], d.get("include_key_aliases", False))
     check_search(doc, case["doc"], case["method"], case["term"],
                  case["inverted"], o, res)
     return [r for _, recs in res.failures.values() for r in recs]
